@@ -4,7 +4,9 @@ set -u
 patch=$1; pid=$2; tier=${3:-quick}
 cd /repo && git status --short | grep -q . && { echo "/repo not clean"; exit 2; }
 git -C /repo apply "$patch" || { echo "patch does not apply"; exit 2; }
+cp /verif/evidence/$pid.json /tmp/evidence_$pid.keep 2>/dev/null
 cd /verif && ./check $pid --tier $tier 2>&1 | grep -v "^NOTE" | tail -${4:-6}
 rc=${PIPESTATUS[0]}
 git -C /repo checkout -- .
+[ -f /tmp/evidence_$pid.keep ] && mv /tmp/evidence_$pid.keep /verif/evidence/$pid.json   # the evidence file describes the unchanged tree
 echo "mutant check exit=$rc"
